@@ -15,6 +15,7 @@ import (
 	"github.com/wrgl/wrgl/pkg/slice"
 	"github.com/wrgl/wrgl/pkg/sorter"
 	"github.com/wrgl/wrgl/pkg/testutils"
+	"github.com/wrgl/wrgl/pkg/verifhook"
 )
 
 type RowCollector struct {
@@ -55,6 +56,7 @@ func (c *RowCollector) CollectResolvedRow(errChan chan<- error, origChan <-chan 
 	go func() {
 		defer close(mergeChan)
 		for m := range origChan {
+			verifhook.Yield("collector.merge")
 			if m.ColDiff != nil {
 				c.cd = m.ColDiff
 				// all collected rows follow the merged layout, in which
